@@ -207,6 +207,22 @@ fn edits(schema: &Schema, doc: &Document) -> Vec<Edit> {
                                 f.sel = vec![Selection::Typename];
                             }
                         }));
+                        // ... a sub-selection without any plain field: only an inline fragment, or only the
+                        // spread of a fragment that exists
+                        let some_object = schema.objects[schema.query].name.clone();
+                        out.push(mk(Rule::SubselectionOnLeaf, &|s| {
+                            if let Selection::Field(f) = &mut s[i] {
+                                f.sel = vec![Selection::Inline { on: some_object.clone(), sel: vec![Selection::Typename] }];
+                            }
+                        }));
+                        if let Some(fr) = doc.fragments().next() {
+                            let n = fr.name.clone();
+                            out.push(mk(Rule::SubselectionOnLeaf, &|s| {
+                                if let Selection::Field(f) = &mut s[i] {
+                                    f.sel = vec![Selection::Spread(n.clone())];
+                                }
+                            }));
+                        }
                         if !l.parent.is_abstract() && !sel_here.iter().any(|x| matches!(x, Selection::Typename)) {
                             out.push(mk(Rule::SubselectionOnLeaf, &|s| {
                                 if let Selection::Field(f) = &mut s[i] {
@@ -269,6 +285,22 @@ fn edits(schema: &Schema, doc: &Document) -> Vec<Edit> {
                             nd.defs.push(Definition::Frag(Fragment { name: frag_name, on: schema.objects[sr].name.clone(), sel: fsel }));
                         }
                         out.push(Edit { rule: Rule::SubscriptionMultipleRootsViaSpread, doc: nd, at: format!("def#{} two root fields through a spread", di), depth: 1, in_fragment: false, parent_kind: "object" });
+                        // ... where the second root response field is `__typename` (through a spread, and through an inline fragment)
+                        for inline in [false, true] {
+                            let mut nd = doc.clone();
+                            let frag_name = "ZzSubTypename".to_string();
+                            if let Definition::Op(o2) = &mut nd.defs[di] {
+                                let mut fsel = o2.sel.clone();
+                                fsel.insert(0, Selection::Typename);
+                                if inline {
+                                    o2.sel = vec![Selection::Inline { on: schema.objects[sr].name.clone(), sel: fsel }];
+                                } else {
+                                    o2.sel = vec![Selection::Spread(frag_name.clone())];
+                                    nd.defs.push(Definition::Frag(Fragment { name: frag_name, on: schema.objects[sr].name.clone(), sel: fsel }));
+                                }
+                            }
+                            out.push(Edit { rule: Rule::SubscriptionMultipleRootsViaSpread, doc: nd, at: format!("def#{} __typename next to the root field through {}", di, if inline { "an inline fragment" } else { "a spread" }), depth: 1, in_fragment: false, parent_kind: "object" });
+                        }
                         // ... and where the second root field hides behind a fragment that an earlier,
                         // valid subscription of the same document already spread
                         let mut nd = doc.clone();
